@@ -5,6 +5,8 @@
                  either side when they are equal | same-name UserDefined whose args are componentwise `unify` (sound
                  because UserDefined is covariant in its args, C14) | otherwise None.
   FOLD           unify_all starts from the bottom type, passes every element through `unify`, returns the accumulator.
+  FAIL-TOP       at every consumer of unify/unify_all, the type used when unification fails is not derived from the
+                 failure payload (the partial join) nor from an input: it is built independently (Any, Error, expected type).
   CALL-PRESENCE  the inference of list/dict literals, if/else, try/catch and match goes through unify_all/unify.
 """
 from .. import shape as S
@@ -59,6 +61,128 @@ def clone_of(e):
     if e["k"] == "MethodCall" and e["method"] == "clone" and is_path(e["recv"]):
         return e["recv"]["path"]
     return None
+
+
+UNIFIERS = ("checks::type_checker::unify_all", "checks::type_checker::unify")
+
+
+def _rooted(f, op, locals_):
+    """does operand `op` resolve (through single-definition temporaries and clone calls) to one of `locals_`?"""
+    for _ in range(6):
+        r = f.root_of(op)
+        if r[0] == "place":
+            return r[1]["l"] in locals_
+        if r[0] == "call":
+            n = M.callee_name(r[2]) or ""
+            if n.endswith("::clone") and r[2]["args"]:
+                op = r[2]["args"][0]
+                continue
+            return False
+        return False
+    return False
+
+
+def fail_top(P, res):
+    """FAIL-TOP: where a combining construct's unification fails, the type it reports instead is not one of the types
+    being combined (a partial join, one branch): the fallback is built independently (Type::Any, Type::error, the expected type)."""
+    n = 0
+    for p_, f in sorted(P.funcs.items()):
+        if p_ in UNIFIERS:
+            continue
+        for bi, t in f.calls():
+            cn = M.callee_name(t)
+            if cn not in UNIFIERS or not t.get("dest"):
+                continue
+            n += 1
+            R = t["dest"]["l"]
+            key = "%s # %s@%s" % (p_, cn.split("::")[-1], D.arm_label(f, bi, enums={"Expression_"}) or "-")
+            # locals tainted on the failure path: the failure payload's types and the inputs of the call
+            taint = set()
+            for a in t["args"]:
+                r = f.root_of(a)
+                if r[0] == "place" and r[1]["l"] != R:
+                    taint.add(r[1]["l"])
+            succ = set()
+            for l, defs in f.defs.items():
+                for (b_, si, st) in defs:
+                    if si == "term" or st.get("s") != "assign" or st["rv"]["k"] != "use":
+                        continue
+                    q = M.op_place(st["rv"]["a"])
+                    if q is None or q["l"] != R:
+                        continue
+                    dc = [e.get("downcast") for e in q["p"] if isinstance(e, dict) and "downcast" in e]
+                    if dc and dc[0] in ("Err", "None"):
+                        if "Type" in f.local_ty(l).split("::")[-1] or f.local_ty(l).endswith("garden_type::Type"):
+                            taint.add(l)
+                    elif dc and dc[0] in ("Ok", "Some"):
+                        succ.add(l)
+            # close both sets under moves
+            ch = True
+            while ch:
+                ch = False
+                for l, defs in f.defs.items():
+                    for (b_, si, st) in defs:
+                        if si == "term" or st.get("s") != "assign" or st["rv"]["k"] != "use":
+                            continue
+                        q = M.op_place(st["rv"]["a"])
+                        if q is None or q["p"]:
+                            continue
+                        if q["l"] in succ and l not in succ:
+                            succ.add(l)
+                            ch = True
+                        if q["l"] in taint and l not in taint and l not in succ and len(defs) == 1:
+                            taint.add(l)
+                            ch = True
+            bad = None
+            consumer = None
+            # (a) merge locals: a local fed by the success payload and by something else
+            for l in sorted(succ):
+                defs = f.defs.get(l, [])
+                if len(defs) < 2:
+                    continue
+                consumer = "match"
+                for (b_, si, st) in defs:
+                    if not f.dominates(bi, b_):
+                        continue
+                    if si == "term":
+                        a0 = st["args"][0] if (M.callee_name(st) or "").endswith("::clone") and st["args"] else None
+                        if a0 is not None and _rooted(f, a0, taint):
+                            bad = st["span"]
+                        continue
+                    if st.get("s") != "assign":
+                        continue
+                    rv = st["rv"]
+                    if rv["k"] == "use":
+                        q = M.op_place(rv["a"])
+                        if q is not None and q["l"] in succ:
+                            continue
+                        if _rooted(f, rv["a"], taint):
+                            bad = st["span"]
+            # (b) Result::unwrap_or(R, default) / Option::unwrap_or
+            for b2, t2 in f.calls():
+                n2 = M.callee_name(t2) or ""
+                if not t2["args"]:
+                    continue
+                q = M.op_place(t2["args"][0])
+                if q is None or q["l"] != R or q["p"]:
+                    continue
+                if n2.endswith("::unwrap_or") and len(t2["args"]) == 2:
+                    consumer = "unwrap_or"
+                    if _rooted(f, t2["args"][1], taint):
+                        bad = t2["span"]
+                elif n2.endswith(("::unwrap_or_default", "::ok", "::is_ok", "::is_some", "::is_none", "::is_err")):
+                    consumer = n2.split("::")[-1]
+                elif consumer is None:
+                    consumer = "call:" + n2
+            if bad is not None:
+                res.bad("FAIL-TOP", key + " # fallback-from-inputs",
+                        "when %s fails here the type reported instead is taken from the types being combined (the partial join in the "
+                        "failure payload, or one input): it does not cover the elements that failed to unify" % cn.split("::")[-1], bad)
+            elif consumer is None:
+                res.ok("FAIL-TOP", key + ": result not merged with a fallback (failure leaves the construct)")
+            else:
+                res.ok("FAIL-TOP", key + ": failure fallback is independent of the combined types (%s)" % consumer)
+    res.floor("FAIL-TOP", "consumers of unify/unify_all", n, 7)
 
 
 def run(ctx, res):
@@ -295,6 +419,7 @@ def run(ctx, res):
                     "type inference of %s no longer goes through unify/unify_all: the combined type is not computed by the join" % v, inf.loc())
     sites = sum(1 for p, f in P.funcs.items() for bi, t in f.calls() if M.callee_name(t) in (U, UA) and p not in (U, UA))
     res.floor("CALL-PRESENCE", "call sites of unify/unify_all outside themselves", sites, 7)
+    fail_top(P if "P" in dir() else ctx.P, res)
     res.extra["functions_analysed"] = 3
     # ---- JOIN-INPUT-COVER (MIR): the match rule joins the types of *all* arms: in check_match every iteration of
     # the loop over the cases records the arm's type in `case_tys` (no `continue` before the push), and the vector
